@@ -1,0 +1,58 @@
+//go:build verif
+
+package http3
+
+// Export shims for the verification harness in /verif (compiled only with -tags verif).
+
+import (
+	"io"
+	"net/http"
+
+	"github.com/quic-go/qpack"
+)
+
+func verifDecodeFn(fields []qpack.HeaderField) qpack.DecodeFunc {
+	i := 0
+	return func() (qpack.HeaderField, error) {
+		if i >= len(fields) {
+			return qpack.HeaderField{}, io.EOF
+		}
+		f := fields[i]
+		i++
+		return f, nil
+	}
+}
+
+// VerifRequestFromHeaders runs the request field-section parser over an already decoded field list.
+func VerifRequestFromHeaders(fields []qpack.HeaderField, sizeLimit int) (*http.Request, error) {
+	return requestFromHeaders(verifDecodeFn(fields), sizeLimit, nil)
+}
+
+// VerifUpdateResponseFromHeaders runs the response field-section parser over an already decoded field list.
+func VerifUpdateResponseFromHeaders(rsp *http.Response, fields []qpack.HeaderField, sizeLimit int) error {
+	return updateResponseFromHeaders(rsp, verifDecodeFn(fields), sizeLimit, nil)
+}
+
+// VerifParseTrailers runs the trailer parser over an already decoded field list.
+func VerifParseTrailers(fields []qpack.HeaderField, sizeLimit int) (http.Header, error) {
+	return parseTrailers(verifDecodeFn(fields), sizeLimit, nil)
+}
+
+// VerifWriteRequestHeader writes the HEADERS frame the client would send for req.
+func VerifWriteRequestHeader(wr io.Writer, req *http.Request, gzip bool) error {
+	return newRequestWriter().WriteRequestHeader(wr, req, gzip, 0, nil)
+}
+
+// VerifWriteRequestTrailer writes the trailer HEADERS frame the client would send for req.
+func VerifWriteRequestTrailer(wr io.Writer, req *http.Request) error {
+	return newRequestWriter().WriteRequestTrailer(wr, req, 0, nil)
+}
+
+// VerifIsQPACKError reports whether err is the parser's QPACK decoding error.
+func VerifIsQPACKError(err error) bool {
+	_, ok := err.(*qpackError)
+	return ok
+}
+
+// VerifErrHeaderTooLarge is the parser's size-limit error.
+var VerifErrHeaderTooLarge = errHeaderTooLarge
